@@ -323,7 +323,7 @@ class Interp:
         summ = self.ex.summaries.get(key)
         if summ is not None:
             self.ex.note("summary", key)
-            return summ(self, *args, **kwargs)
+            return summ(self.ex.vc, *args, **kwargs)
         for d in f.decorators:
             if d not in ALLOWED_DECORATORS:
                 raise Unsupported(f"decorator @{d} on {key}")
@@ -616,7 +616,7 @@ class Interp:
         summ = self.ex.summaries.get(key)
         if summ is not None:
             self.ex.note("summary", key)
-            return summ(self, *args, **kwargs)
+            return summ(self.ex.vc, *args, **kwargs)
         m = self.lib.CLASS_MODELS.get(cls)
         if m is not None:
             return m(self, *args, **kwargs)
@@ -710,7 +710,7 @@ class Interp:
             summ = self.ex.summaries.get(name)
             if summ is not None:
                 self.ex.note("summary", name)
-                return summ(self, *args, **kwargs)
+                return summ(self.ex.vc, *args, **kwargs)
             if m is not None:
                 self.ex.note("lib", m.__name__)
                 return m(self, *args, **kwargs)
